@@ -182,7 +182,7 @@ def extra_checks(pid, tier, seed, exe, workdir):
 EXTRA = {}
 
 HOOK_COMMITS = ["ec0e30b"]
-FIX_COMMITS = ["f38d614", "53a1696", "ab48bfa", "c882549", "be58dcf", "e268d80", "a281c03", "d168209", "866ad45"]
+FIX_COMMITS = ["f38d614", "53a1696", "ab48bfa", "c882549", "be58dcf", "e268d80", "a281c03", "d168209", "866ad45", "ff93241", "ff97c81", "1d033aa", "67b591f"]
 
 _MODELLED = ("Modelled, not verified: the C++ itself; the theorems are about the Gallina model "
              "(coq/theories/Model), tied to the code only by the correspondence run. ")
@@ -289,7 +289,7 @@ PROPS["C07"] = dict(
                "memoised recursion in Model/Memo.v when present; key adequacy per operation is by correspondence.")
 
 PROPS["C08"] = dict(
-    gens=[("reach", gen.gen_C08, 1.0)], quick=50, thorough=500,
+    gens=[("reach", gen.gen_C08, 1.0), ("dist-nested", gen.gen_C08_dist, 1.4)], quick=50, thorough=500,
     level_text="Proved: both breadth-first iterations (with and without frontier) return exactly the inductively "
                "defined set of reachable states for every initial set and relation over any finite state list, "
                "and terminate within |states|+1 rounds. Tie: REACHABLE_TRAD_FS / _NOFS / REACHABLE_SATUR, forward "
